@@ -11,6 +11,12 @@ def mc_cfg(threads, scen, defects=(), invariants=("Ledger", "OnePlace", "NoLostW
             % (", ".join(map(str, threads)), scen, tla_value(set(defects)), "".join("INVARIANT %s\n" % i for i in invariants)))
 
 
+def live_cfg(threads, scen, defects=()):
+    """liveness: weak fairness of every thread's next step; every behaviour ends quiescent with only legitimately sleeping waiters"""
+    return ("SPECIFICATION FairSpec\nCONSTANTS Threads = {%s}\n Scenarios <- %s\n Defects = %s\nPROPERTY Progress\nCHECK_DEADLOCK FALSE\n"
+            % (", ".join(map(str, threads)), scen, tla_value(set(defects))))
+
+
 ASSUME = ["TLC and the CommunityModules JSON reader are correct",
           "harness/vsched.h serialises the real code at every mutex / atomic / condition-variable operation and at the EVENTPP_VERIF_POINT markers; "
           "behaviour that needs weaker-than-sequentially-consistent memory is not explored",
@@ -59,8 +65,14 @@ def c07(tier, seed):
     scen = ([{"scenario": s} for s in sc] + [{"scenario": s, "max": 2500 if quick else 80000} for s in sc3]
             + [{"scenario": s, "bound": 2, "max": 12000 if quick else 200000, "rand": 1500 if quick else 20000} for s in sc3b])
     models = [{"module": "ConcQueueMC", "tag": "wakeup", "cfg": mc_cfg([1, 2], "W2")},
-              {"module": "ConcQueueMC", "tag": "2threads", "cfg": mc_cfg([1, 2], "Scen2")}]
-    return {"models": models, "runner": RUNNER_CQ, "trace_module": "TraceCQ", "scenarios": scen, "corpus": [CORPUS_D5], "extra_runners": [RUNNER_HQ],
+              {"module": "ConcQueueMC", "tag": "2threads", "cfg": mc_cfg([1, 2], "Scen2")},
+              # liveness under weak fairness (the statement's "blocked for ever"): also excludes livelock
+              {"module": "ConcQueueMC", "tag": "wakeup-liveness", "cfg": live_cfg([1, 2], "W2")},
+              {"module": "ConcQueueMC", "tag": "2threads-liveness", "cfg": live_cfg([1, 2], "Scen2")}]
+    if not quick:
+        models.append({"module": "ConcQueueMC", "tag": "wakeup3-liveness", "cfg": live_cfg([1, 2, 3], "W3"), "heap": "16g"})
+    return {"models": models, "runner": RUNNER_CQ, "trace_module": "TraceCQ", "scenarios": scen, "corpus": [CORPUS_D5],
+            "model_defects": [{"module": "ConcQueueMC", "cfg": live_cfg([1, 2], "SDqnWaiter", defects=["dqn_unlocked"]), "defect": "dqn_unlocked (liveness form)"}], "extra_runners": [RUNNER_HQ],
             "rule": "ConcQueue.tla (predicate under the mutex, atomic unlock+sleep, notify_one, DisableQueueNotify ctor/dtor steps) model-checked with the "
                     "NoLostWakeup invariant; with the D5 defect switched on TLC prints the lost wake-up schedule, which is replayed on the real code; "
                     "waiter/producer/DisableQueueNotify scenarios explored on the real EventQueue under the controlled scheduler (dfs with preemption "
